@@ -118,3 +118,18 @@ def _is_number(ip, args, kw, st, node):
 @intrinsic(rt.seq_len)
 def _seq_len(ip, args, kw, st, node):
     return ip.seq_len(args[0])
+
+
+@intrinsic(rt.idx_of)
+def _idx_of(ip, args, kw, st, node):
+    r = args[0]
+    vals = r.vals if isinstance(r, SRec) else (r.fields if isinstance(r, SObj) else None)
+    if vals is None:
+        raise EngineError(f'idx_of({r!r})')
+    if '__idx' in vals:
+        return vals['__idx']
+    # a NamedTuple row: take the index carried by its first object-valued field
+    for v in vals.values():
+        if isinstance(v, SObj) and '__idx' in v.fields:
+            return v.fields['__idx']
+    raise EngineError('idx_of: value was not taken from a symbolic list')
